@@ -634,6 +634,38 @@ pub fn enumerate(thorough: bool, seed: u64, f: &(dyn Fn(&Program, u64, &str, &mu
     });
     total_stats.merge(s);
     bounds.insert("long_comments".into(), json!({"lengths": clens, "entries": [0, 1]}));
+    // (12) contents that look like archive structure: a small finished archive (with its own end record and comment) and bare
+    // record signatures as the content of the last / only / middle entry, stored and compressed - contents are unrestricted,
+    // only names and comments are not allowed to embed signatures
+    let inner = exec(&[Call::SetComment(b"inner comment".to_vec()), Call::StartFile { name: "inner-a".into(), opts: FOpts::m(0) }, Call::Write(b"inner a".to_vec()), Call::StartFile { name: "inner-b".into(), opts: FOpts::m(8) }, Call::Write(b"inner b inner b inner b".to_vec()), Call::Finish], &[]).1;
+    let mut sigs = vec![];
+    for sig in [[0x50u8, 0x4b, 5, 6], [0x50, 0x4b, 6, 6], [0x50, 0x4b, 6, 7], [0x50, 0x4b, 1, 2], [0x50, 0x4b, 3, 4], [0x50, 0x4b, 7, 8]] {
+        let mut v = b"before ".to_vec();
+        v.extend_from_slice(&sig);
+        v.extend_from_slice(&[0u8; 60]);
+        v.extend_from_slice(&sig);
+        sigs.push(v);
+    }
+    let mut odd_contents: Vec<Vec<u8>> = vec![inner.clone(), [inner.clone(), inner.clone()].concat()];
+    odd_contents.extend(sigs);
+    let oc = &odd_contents;
+    let s = par_for((odd_contents.len() * 4 * 3 * 2) as u64, 1, |i, st| {
+        let i = i as usize;
+        let c = oc[i % oc.len()].clone();
+        let m = [0u16, 8, 12, 93][(i / oc.len()) % 4];
+        let pos = (i / (oc.len() * 4)) % 3;
+        let with_comment = i / (oc.len() * 12) == 1;
+        let odd = E { kind: 0, name: "nested.zip".into(), content: c, opts: FOpts::m(m) };
+        let plain = |n: &str| E { kind: 0, name: n.into(), content: content_class(3, seed), opts: FOpts::m(8) };
+        let entries = match pos {
+            0 => vec![odd],
+            1 => vec![plain("first"), odd],
+            _ => vec![plain("first"), odd, plain("last")],
+        };
+        f(&Program { entries, comment: if with_comment { Some(b"outer".to_vec()) } else { None }, comment_last: false }, (12 << 32) + i as u64, "structure-like-contents", st);
+    });
+    total_stats.merge(s);
+    bounds.insert("structure_like_contents".into(), json!("{a finished 2-entry archive, two of them, 6 record signatures amid zeros} x 4 methods x {only, last of 2, middle of 3} x {no comment, comment}"));
     // (9) entry counts around the 16-bit limit x comment variants (the end records change shape at 65536 entries)
     let counts = [65_534usize, 65_535, 65_536, 65_537];
     let s = par_for((counts.len() * 3) as u64, 1, |i, st| {
@@ -662,7 +694,7 @@ pub fn run(args: &Args) -> i32 {
     let thorough = args.tier.thorough();
     ctx.rule = "E-PROD over writer programs: (1) length-1 full product kind x content x name x method/level x large x perm x time; \
         (2) every 9-bit permission value x 3 kinds; (3) every date word x 3 time words and 3 date words x every time word; \
-        (4) every documented method/level pair x every content class, and 25 content sizes at internal buffer boundaries (2..1.5 MiB, each written in ONE write call) x every method x {repeating, incompressible}; (5) comment variants; (10) every ordered pair of 18 look-alike names; (11) comments of 8169..65534 bytes; (9) 65534..65537 entries x 3 comment variants; (6) all length-2 and length-3 (thorough: 4) \
+        (4) every documented method/level pair x every content class, and 25 content sizes at internal buffer boundaries (2..1.5 MiB, each written in ONE write call) x every method x {repeating, incompressible}; (5) comment variants; (10) every ordered pair of 18 look-alike names; (11) comments of 8169..65534 bytes; (12) entry contents that are themselves archives or carry record signatures; (9) 65534..65537 entries x 3 comment variants; (6) all length-2 and length-3 (thorough: 4) \
         entry lists over reduced alphabets. Each program is executed twice (finish / drop) on the real writer and read back with the real \
         seekable reader; the program is the reference model. Every archive is additionally opened through sources that return short reads (1-, 7-, 4093-byte pieces; BufReader of 8192 and 61 bytes) and must be observed identically; by_name of every name written once must return that entry, file_names() the set of names. distinct_nontrivial = distinct archive byte strings produced (hash set)."
         .into();
